@@ -316,11 +316,21 @@ fn std_segments(std: &StandardLibrary) -> HashSet<String> {
             }
         }
     }
+    // the class table is part of the library too: class names, their properties and events (what
+    // roblox_incorrect_roact_usage looks a field name up in)
+    for (name, class) in std.roblox_classes.iter() {
+        s.insert(name.clone());
+        s.insert(class.superclass.clone());
+        s.extend(class.properties.iter().cloned());
+        s.extend(class.events.iter().cloned());
+    }
     s
 }
 
 // `pairs` / `ipairs` / `next`: manual_table_clone recognises iteration through these three spellings (Props/C14: C14_clone_shape_invariant)
-const SPECIAL: &[&str] = &["self", "_G", "shared", "type", "typeof", "Roact", "React", "game", "script", "workspace", "_", "_ENV", "arg", "pairs", "ipairs", "next"];
+const SPECIAL: &[&str] = &["self", "_G", "shared", "type", "typeof", "Roact", "React", "game", "script", "workspace", "_", "_ENV", "arg", "pairs", "ipairs", "next",
+    // field names that createElement of React treats specially (roblox_incorrect_roact_usage)
+    "ref", "key", "children"];
 
 /// an injective renaming of script-introduced names; returns (twin source, new→old map)
 pub fn rename_twin(src: &str, ast: &full_moon::ast::Ast, d: &Dumper, chunk: &Sx, std: &StandardLibrary, r: &mut Rng, stats: &mut Out) -> Option<(String, HashMap<String, String>)> {
@@ -463,14 +473,23 @@ pub fn run(args: &Args, out: &mut Out, kind: &str) {
         let c = Checker::new(CheckerConfig { config, ..CheckerConfig::default() }, custom.clone()).unwrap();
         (custom, c)
     } else if kind == "c13r" || kind == "c14r" {
-        let rb = StandardLibrary::roblox_base();
+        // the Roblox base library under the name the Roblox-only code paths test for (`Context::is_roblox`), with a small class
+        // table (roblox_incorrect_roact_usage returns early without one) and the two element constructors
+        let mut rb = StandardLibrary::roblox_base();
+        let extra: StandardLibrary = serde_yaml::from_str(
+            "name: roblox\nglobals:\n  Roact.createElement:\n    args:\n      - type: any\n      - type: any\n        required: false\n      - type: any\n        required: false\n  React.createElement:\n    args:\n      - type: any\n      - type: any\n        required: false\n      - type: any\n        required: false\n  Roact.Event:\n    any: true\n  React.Event:\n    any: true\nroblox_classes:\n  Frame:\n    superclass: GuiObject\n    properties: []\n    events: []\n  GuiObject:\n    superclass: Instance\n    properties:\n      - Size\n    events:\n      - InputBegan\n  Instance:\n    superclass: \"<<<ROOT>>>\"\n    properties:\n      - Name\n    events:\n      - Changed\n",
+        )
+        .unwrap();
+        let mut rbx = extra;
+        rbx.extend(rb.clone());
+        rb = rbx;
         let c = Checker::new(CheckerConfig::default(), rb.clone()).unwrap();
         (rb, c)
     } else {
         let c = Checker::new(CheckerConfig::default(), std51.clone()).unwrap();
         (std51, c)
     };
-    const PROLOGUE_R: &str = "local function _verif_prologue_r(vx)\n  local c = Color3.new(255, 0, 0)\n  local c2 = Color3.new(1, 0.5, 0)\n  local u = UDim2.new(1, 0, 1, 0)\n  local u2 = UDim2.new(0, 5, 0, 5)\n  local u3 = UDim2.new(1, 2)\n  local u4 = UDim2.new(0.5, 0, 0.5, 0)\n  return c, c2, u, u2, u3, u4, vx\nend\n";
+    const PROLOGUE_R: &str = "local function _verif_prologue_r(vx)\n  local c = Color3.new(255, 0, 0)\n  local c2 = Color3.new(1, 0.5, 0)\n  local u = UDim2.new(1, 0, 1, 0)\n  local u2 = UDim2.new(0, 5, 0, 5)\n  local u3 = UDim2.new(1, 2)\n  local u4 = UDim2.new(0.5, 0, 0.5, 0)\n  local e = Roact.createElement\n  local f1 = e(\"Frame\", { Name = vx .. \"s\", Size = u, Colour = c })\n  local f2 = Roact.createElement(\"Frame\", {\n    Name = \"hello\",\n    [Roact.Event.InputBegan] = print,\n    [Roact.Event.Clicked] = print,\n  })\n  local f3 = React.createElement(\"Frame\", { Name = \"two words\", key = 1 })\n  local f4 = React.createElement(\"Window\", { Name = vx })\n  return c, c2, u, u2, u3, u4, vx, f1, f2, f3, f4\nend\n";
     const PROLOGUE: &str = "local function _verif_prologue(vx, vy)\n  if type(vx == \"string\") then end\n  local _o = oldvalue\n  print(oldvalue, vx)\n  oldfn(vx, vy)\n  depr_param(nil, vx)\n  depr_param(vx)\n  _G.allowed_name = vx\n  _G.other_name = vy\n  if vx == 0/0 then end\n  return lib.oldfield, oldvalue\nend\n";
     let corpus = format!("/verif/corpus/{}", if kind == "c13r" { "c13" } else if kind == "c14r" { "c14" } else { kind });
     let rel = if kind == "c13r" { "c13" } else if kind == "c14r" { "c14" } else { kind };
